@@ -207,6 +207,10 @@ func createSearchAfterDocument(sort search.SortOrder, after []string) *search.Do
 // if required to enable pagination on numeric, datetime,
 // and geo fields
 func encodeSearchAfter(ss search.SearchSort, after string) string {
+	if after == search.HighTerm || after == search.LowTerm {
+		// sort value of a hit that has no value for this field
+		return after
+	}
 	encodeFloat := func() string {
 		f64, _ := strconv.ParseFloat(after, 64) // error checking in SearchRequest.Validate
 		i64 := numeric.Float64ToInt64(f64)
